@@ -40,7 +40,37 @@ const destDir = "/dst"
 type envSpec struct {
 	Layout string `json:"layout,omitempty"` // "" | "part" (remote path and key contain the text ".part")
 	Ignore string `json:"ignore,omitempty"` // Configuration.FilesystemItemsToIgnore
+	// how the path ARGUMENTS are spelt (the files are the same): "" canonical | "trailing" (x/) | "dot" (/a/./b) |
+	// "double" (/a//b) | "dotdot" (/a/b/../b) | "rel" (a/b, relative to the working directory) | "reldot" (./a/b)
+	SpellSrc  string `json:"spell_src,omitempty"`  // source directory given to Store
+	SpellDst  string `json:"spell_dst,omitempty"`  // destination directory given to Fetch
+	SpellRoot string `json:"spell_root,omitempty"` // RemoteStoragePath given to the constructor
 }
+
+var spellings = []string{"", "trailing", "dot", "double", "dotdot", "rel", "reldot"}
+
+// spell: another spelling of the absolute, clean path p.
+func spell(p, how string) string {
+	i := strings.LastIndex(p, "/")
+	switch how {
+	case "trailing":
+		return p + "/"
+	case "dot":
+		return p[:i] + "/." + p[i:]
+	case "double":
+		return p[:i] + "/" + p[i:]
+	case "dotdot":
+		return p + "/.." + p[i:]
+	case "rel":
+		return p[1:]
+	case "reldot":
+		return "." + p
+	}
+	return p
+}
+
+// normPath: the canonical absolute form of a path the library handed to the back end (classification only).
+func normPath(p string) string { return filepath.Clean(abs(p)) }
 
 const defaultIgnore = ".snapshot,ignore-me.txt,.gitignore"
 
@@ -50,6 +80,7 @@ var (
 	entryDir    = remoteRoot + "/" + cacheKey
 	lockDirPath = entryDir + "/lockfile-SharedMutableCache-" + cacheKey
 	ignoreItems = ""
+	curEnv      envSpec
 )
 
 // setEnv is called at the start of every scenario (scenarios never overlap).
@@ -61,13 +92,18 @@ func setEnv(e envSpec) {
 	entryDir = remoteRoot + "/" + cacheKey
 	lockDirPath = entryDir + "/lockfile-SharedMutableCache-" + cacheKey
 	ignoreItems = e.Ignore
+	curEnv = e
 }
 
 func (e envSpec) sig() string {
-	if e.Layout == "" {
-		return ""
+	s := ""
+	if e.Layout != "" {
+		s = ":remote-path-contains-" + map[string]string{"part": ".part"}[e.Layout]
 	}
-	return ":remote-path-contains-" + map[string]string{"part": ".part"}[e.Layout]
+	if e.SpellSrc != "" || e.SpellDst != "" || e.SpellRoot != "" {
+		s += ":path-not-spelt-canonically"
+	}
+	return s
 }
 
 // envFor spreads the environments over a sweep deterministically.
@@ -79,6 +115,10 @@ func envFor(i int) envSpec {
 	if i%4 == 1 {
 		e.Layout = "part"
 	}
+	// the spelling of the three path arguments rotates independently
+	e.SpellSrc = spellings[(i*3+1)%len(spellings)]
+	e.SpellDst = spellings[(i*5+2)%len(spellings)]
+	e.SpellRoot = spellings[(i*2)%len(spellings)]
 	return e
 }
 
@@ -339,7 +379,7 @@ func (w *world) newClient(kind string, timeout time.Duration, staleView bool) *c
 		}
 	}
 	fs := filesystem.NewVirtualFileSystem(c.sh, filesystem.InMemoryFS, filesystem.IdentityPathConverterFunc)
-	cfg := &sharedcache.Configuration{RemoteStoragePath: remoteRoot, Timeout: timeout, FilesystemItemsToIgnore: ignoreItems}
+	cfg := &sharedcache.Configuration{RemoteStoragePath: spell(remoteRoot, curEnv.SpellRoot), Timeout: timeout, FilesystemItemsToIgnore: ignoreItems}
 	var err error
 	if kind == "mutable" {
 		c.repo, err = sharedcache.NewSharedMutableCacheRepository(cfg, fs)
@@ -450,17 +490,21 @@ func (c *client) guard(err *error) {
 	}
 }
 
-func (c *client) store(v int) (err error) {
+func (c *client) store(v int) error      { return c.storeK(cacheKey, v) }
+func (c *client) fetch(dest string) error { return c.fetchK(cacheKey, dest) }
+func (c *client) clean() error            { return c.cleanK(cacheKey) }
+
+func (c *client) storeK(key string, v int) (err error) {
 	defer c.guard(&err)
-	return c.repo.Store(c.ctx, cacheKey, c.w.srcPath(v))
+	return c.repo.Store(c.ctx, key, spell(c.w.srcPath(v), curEnv.SpellSrc))
 }
-func (c *client) fetch(dest string) (err error) {
+func (c *client) fetchK(key, dest string) (err error) {
 	defer c.guard(&err)
-	return c.repo.Fetch(c.ctx, cacheKey, dest)
+	return c.repo.Fetch(c.ctx, key, spell(dest, curEnv.SpellDst))
 }
-func (c *client) clean() (err error) {
+func (c *client) cleanK(key string) (err error) {
 	defer c.guard(&err)
-	return c.repo.CleanEntry(c.ctx, cacheKey)
+	return c.repo.CleanEntry(c.ctx, key)
 }
 
 // done stops the client's background activity (heart beats).
